@@ -9,6 +9,7 @@ import (
 	"path/filepath"
 	"runtime/debug"
 	"sort"
+	"strconv"
 	"strings"
 	"time"
 
@@ -218,6 +219,33 @@ func InitRunDir() {
 func cleanupRunDir() {
 	os.Chdir("/")
 	os.RemoveAll(RealRunDir)
+}
+
+// CleanupRunDir removes this process' scratch directory (called on every normal exit).
+func CleanupRunDir() { cleanupRunDir() }
+
+// SweepStaleRunDirs removes scratch directories left behind by processes that are gone
+// (workers that had to be killed after a hang inside sop cannot clean up after themselves).
+func SweepStaleRunDirs() {
+	base := filepath.Dir(RealRunDir)
+	ents, err := os.ReadDir(base)
+	if err != nil {
+		return
+	}
+	for _, e := range ents {
+		name := e.Name()
+		if !strings.HasPrefix(name, "verif-") || !e.IsDir() {
+			continue
+		}
+		pid, err := strconv.Atoi(strings.TrimPrefix(name, "verif-"))
+		if err != nil || pid == os.Getpid() {
+			continue
+		}
+		if _, err := os.Stat(fmt.Sprintf("/proc/%d", pid)); err == nil {
+			continue // still running
+		}
+		os.RemoveAll(filepath.Join(base, name))
+	}
 }
 
 var runCounter int
